@@ -16,14 +16,15 @@ def main(argv):
   prop, tier = argv[0], argv[1]
   try:
     r = core.Run(prop, tier)
-    r.audit = core.audit(prop)
+    mod = importlib.import_module("qkv.props." + prop.lower())
+    mods = getattr(mod, "PROP_MODULES", None)
+    r.audit = core.audit(prop, mods, getattr(mod, "PROP_PREFIXES", None))
     if tier == "thorough" and r.audit["build_ok"]:
-      lc = core.leanchecker(prop)
+      lc = core.leanchecker(prop, mods)
       r.extra["leanchecker"] = lc
       if not lc["ok"]:
         r.audit["ok"] = False
         r.audit["build_log"] = "leanchecker rejected: " + lc["log"]
-    mod = importlib.import_module("qkv.props." + prop.lower())
     child_rc = 0
     if tier == "thorough" and getattr(mod, "KERAS3_PASS", False) and not os.environ.get("QKV_CHILD_TAG"):
       # the pure-quantizer properties are repeated under the pinned Keras 3 (DESIGN §2)
